@@ -72,6 +72,7 @@ def rules(ctx):
         for p in ctx.sites(f, 'hash128_with_seed', exact=1):
             ctx.const_arg(f, p, 1, 0, 'seed 0')
     S.header_codec_rules(ctx)
+    S.separator_cut_rules(ctx)
 
 
 def _type_name_facts(F):
